@@ -472,7 +472,7 @@ func (g *gen) mutCountCut(p *pbuf) ([]byte, string) {
 		ci = 0
 	}
 	c := p.cnts[ci]
-	nv := []uint64{0xffffffff, 1 << 32, 1 << 40, 1 << 62, 1<<63 - 1, 0x7fffffff, 1 << 24}[g.r.Intn(7)]
+	nv := []uint64{1 << 40, 1 << 62, 1<<63 - 1, 1 << 24, 1 << 48}[g.r.Intn(5)]
 	enc := varint(nv)
 	end := c.Off + c.W
 	// cut at one of the next few field boundaries, or a few bytes into the element
@@ -773,7 +773,7 @@ func (g *gen) hostile(cmd string) ([]byte, string) {
 			return b, tag
 		}
 	}
-	switch x := g.r.Intn(22); {
+	switch x := g.r.Intn(21); {
 	case x < 3:
 		return g.wellFormed(cmd).b, "wellformed"
 	case x < 8:
@@ -782,7 +782,7 @@ func (g *gen) hostile(cmd string) ([]byte, string) {
 		return g.mutCount(g.wellFormed(cmd))
 	case x < 17:
 		return g.mutBytes(g.wellFormed(cmd))
-	case x < 19:
+	case x < 18:
 		return g.mutCountCut(g.wellFormed(cmd))
 	default:
 		return g.sizeClass(cmd)
